@@ -4,7 +4,7 @@ writes /verif/seeded/<seed-id>/meta.json (keys: change needs demo before after s
 import json,sys
 sid,prop,caught,sn=sys.argv[1:5]
 kv=dict(a.split('=',1) for a in sys.argv[5:])
-m={"property":prop,"round":2,
+m={"property":prop,"round":int(sid.split("-r")[1]) if "-r" in sid else 1,
  "origin":kv.get("origin","independent sub-agent (round 2) given only the property text, the site of the round-1 change to avoid, and its own scratch worktree (/tmp/wt2-%s); nothing from /verif"%prop),
  "change":kv["change"],"needs_to_manifest":kv["needs"],
  "confirmed_by_me":"scripts/seed_confirm.sh %s in a fresh scratch worktree (/tmp/sc-%s) of /repo HEAD: demo passes clean, patch applies and builds, demo fails with the patch, existing tests of the touched component pass with the patch (confirm.log); worktree removed"%(sid,sid),
